@@ -717,7 +717,14 @@ func c02NewEnv(tag string, cfg Config, groups []c02Group, opts ...Option) (*c02E
 	// breakers cannot open. Follow-up checks rejected by a tainted route's breaker
 	// are repeated there.
 	groups = append(append([]c02Group{}, groups...), c02Group{Class: "spare", Method: http.MethodGet, N: 2, Timeout: c02LongTimeout})
-	for _, g := range groups {
+	parity := 0
+	for _, ch := range tag {
+		parity += int(ch)
+	}
+	if parity%3 == 0 {
+		srv.Use(e.passMiddleware) // a server-wide user middleware (innermost): must be transparent
+	}
+	for gi, g := range groups {
 		var rs []Route
 		for i := 0; i < g.N; i++ {
 			rt := &c02Route{Method: g.Method, Path: fmt.Sprintf("/%s/%s/r%d", tag, g.Class, i), Class: g.Class}
@@ -749,9 +756,29 @@ func c02NewEnv(tag string, cfg Config, groups []c02Group, opts ...Option) (*c02E
 		if g.MaxBytes > 0 {
 			opts = append(opts, WithMaxBytes(g.MaxBytes))
 		}
-		srv.AddRoutes(rs, opts...)
+		// every registration entry point must honour the per-route options: half of the
+		// groups go through the single-route wrapper AddRoute (with the handlers wrapped
+		// by WithMiddlewares), the others through AddRoutes
+		if (gi+parity)%2 == 1 {
+			for _, one := range WithMiddlewares([]Middleware{e.passMiddleware, e.passMiddleware}, rs...) {
+				srv.AddRoute(one, opts...)
+			}
+			atomic.AddInt64(&c02AddRouteGroups, 1)
+		} else {
+			srv.AddRoutes(rs, opts...)
+		}
 	}
 	return e, nil
+}
+
+var c02AddRouteGroups, c02UserMiddlewareCalls int64
+
+// passMiddleware is a user middleware that does nothing but count.
+func (e *c02Env) passMiddleware(next http.HandlerFunc) http.HandlerFunc {
+	return func(w http.ResponseWriter, r *http.Request) {
+		atomic.AddInt64(&c02UserMiddlewareCalls, 1)
+		next(w, r)
+	}
 }
 
 func (e *c02Env) handle(w http.ResponseWriter, r *http.Request) {
